@@ -105,7 +105,12 @@ func (n *BitcoinNode) handleVersion(ctx context.Context, header *wire.MessageHea
 	// 	return errors.Wrapf(ErrNotFullService, "0x%016x", uint64(msg.Services))
 	// }
 
-	n.handshakeChannel <- msg // trigger handshake action
+	select {
+	case n.handshakeChannel <- msg: // trigger handshake action
+	default:
+		// The handshake thread stops reading this channel when the handshake is complete. Blocking
+		// here on repeated messages would stop all reading from the connection.
+	}
 	return nil
 }
 
@@ -117,7 +122,12 @@ func (n *BitcoinNode) handleVerack(ctx context.Context, header *wire.MessageHead
 		return errors.Wrap(err, "read message")
 	}
 
-	n.handshakeChannel <- msg // trigger handshake action
+	select {
+	case n.handshakeChannel <- msg: // trigger handshake action
+	default:
+		// The handshake thread stops reading this channel when the handshake is complete. Blocking
+		// here on repeated messages would stop all reading from the connection.
+	}
 	return nil
 }
 
